@@ -271,6 +271,58 @@ def run_cases(chk, tier, n, sizes, tag):
     return recs
 
 
+def delay_work(job):
+    """the delay handed to the send callback of the emitted C = the delay the interpreter would wait (CSS2 time: s / ms, fractions, units
+    case-insensitive, no unit = ms)"""
+    xbin, outdir, seeds = job
+    os.makedirs(outdir, exist_ok=True)
+    docs = {}
+    for sd in seeds:
+        rng = random.Random(sd); sends = []
+        for i in range(rng.randint(3, 7)):
+            ms = rng.choice([1, 5, 50, 250, 500, 1000, 1500, 2000, 2750, 60000])
+            form = rng.choice(['%dms' % ms, '%d' % ms, '%gs' % (ms / 1000.0), ('%.3fs' % (ms / 1000.0)), '%dMS' % ms, '%gS' % (ms / 1000.0), ('%.3fs' % (ms / 1000.0)).lstrip('0') if ms < 1000 else '%dms' % ms])
+            sends.append(('d%d' % i, form, ms))
+        xml = ('<scxml xmlns="http://www.w3.org/2005/07/scxml" version="1.0" datamodel="lua"><state id="a"><onentry>%s</onentry><transition event="d"/></state></scxml>'
+               % ''.join('<send event="%s" delay="%s"/>' % (e, f) for e, f, m in sends))
+        docs['dl%d' % sd] = (xml, sends)
+    res = xform.transform_batch(xbin, [(cid, 'c', xml) for cid, (xml, sends) in docs.items()], outdir)
+    out = []
+    for cid, (xml, sends) in docs.items():
+        rec = {'id': cid, 'bad': [], 'n': 0}
+        r = res.get(cid)
+        if not r or r[0] != 'ok': rec['skip'] = True; out.append(rec); continue
+        rr = compile_run(outdir, cid, [], ['-O1'] + SAN, 'san')
+        if 'compile_error' in rr or rr.get('timeout') or rr.get('rc'): rec['skip'] = True; out.append(rec); continue
+        got = dict((l.split(' ')[1], int(l.split(' ')[2])) for l in rr['out'].split('\n') if l.startswith('SD '))
+        for e, f, ms in sends:
+            rec['n'] += 1
+            if got.get(e, 0) != ms:
+                rec['bad'].append(('send-delay-differs:%s' % ('fraction-of-a-second' if '.' in f else 'upper-case-unit' if f[-1] == 'S' else 'other'), {'xml': xml, 'send': e, 'delay_attribute': f, 'expected_ms': ms, 'emitted_ms': got.get(e, 0)}))
+        for fn in os.listdir(outdir):
+            if fn.startswith(cid + '.'):
+                try: os.unlink(os.path.join(outdir, fn))
+                except OSError: pass
+        out.append(rec)
+    return out
+
+
+def delay_part(chk, tier):
+    xbin = common.harness('vxform', 'asan', transform=True)
+    outroot = common.scratch('c04d')
+    base = chk.seed * 1000 + 44; n = 24 if tier == 'quick' else 400
+    tot = 0
+    for out in common.pmap(delay_work, [(xbin, os.path.join(outroot, 'w%d' % (i // 6)), list(range(base + i, base + min(i + 6, n)))) for i in range(0, n, 6)]):
+        for rec in out:
+            chk.count(); tot += rec['n']
+            seen = set()
+            for key, det in rec['bad']:
+                if key in seen: continue
+                seen.add(key); chk.report(key, det, '%s %s' % (rec['id'], key))
+    shutil.rmtree(outroot, ignore_errors=True)
+    chk.add('send_delays_compared', tot)
+
+
 def legality_part(chk, tier):
     """used by C02: configurations of emitted C machines"""
     recs = run_cases(chk, tier, 30 if tier == 'quick' else 400, [], 'c02c')
@@ -302,6 +354,7 @@ def main(tier, replay):
         if not rec['bad'] and len(chk.samples) < 4 and rec.get('items', 0) > 6:
             chk.sample({'case': rec['id'], 'states': rec['states'], 'transitions': rec['trans'], 'trace_items_compared': rec['items'], 'sizing': rec.get('sizes')})
     chk.add('trace_items_compared', items); chk.add('skipped_interpreter_failures', skipped); chk.add('sizing_macro_classes', dict(sizeseen))
+    delay_part(chk, tier)
     chk.rule = ('each case = seeded random document (lua rendering, integer fragment) + history; ChartToC output compiled with the emitted sizing macros, once with -fsanitize=address,undefined,bounds and once '
                 'plain -O2; projected history (dequeued events, log lines+values, configuration after each micro step, final configuration/data) compared with the interpreter (engine large); extra documents are '
                 'padded to state counts around the byte boundaries of the sizing macros, to 255/256/257 states or transitions (index types), and documents whose first state invokes a larger inline machine (driven inside the scaffold, sanitizers only). distinct_nontrivial = distinct (document, history) using parallel/history/targetless/internal/multi-target/raise with >3 trace items')
